@@ -415,6 +415,20 @@ pub fn run_server_model(cfg: &ScenCfg, out: &mut RunOut) {
             }
             expected_opens.push((t, true));
             retry.reset();
+            // commands arriving during the wait must not cut it short
+            if chance(1, 2) {
+                let now = kernel::now_ns();
+                let mut at: Vec<u64> = (0..1 + choose(3)).map(|_| now + choose64(t.saturating_sub(now).max(1))).collect();
+                at.sort();
+                for a in at {
+                    if a > kernel::now_ns() {
+                        kernel::advance_to(a);
+                    }
+                    let mut fut = Box::pin(rig.handle.set_decode_level(decode_level(choose(36) as u8)));
+                    let _ = kernel::block_on(fut.as_mut());
+                    out.probe("command_during_reopen_wait");
+                }
+            }
             // bytes sent while the port is closed are lost on a UART: probe liveness afterwards
             kernel::advance_to(t);
             if !check_opens(&expected_opens, out, "after framing error") {
@@ -459,4 +473,11 @@ pub fn run_server_model(cfg: &ScenCfg, out: &mut RunOut) {
     }
     let _ = &mut rig;
     let _ = Req::ReadCoils { start: 0, count: 1 };
+}
+
+fn choose64(n: u64) -> u64 {
+    // uniform enough for instants: two 32-bit draws
+    let hi = choose(1 << 20) as u64;
+    let lo = choose(1 << 20) as u64;
+    ((hi << 20) | lo) % n
 }
